@@ -1,4 +1,5 @@
 """Small-step abstract interpreter over exported MIR (E2 core)."""
+import os
 from .values import *
 from .state import *
 from . import models
@@ -55,7 +56,9 @@ class Interp:
 
     def __init__(self, prog):
         self.prog = prog
-        self.fns = prog.fns
+        self.fns = dict(prog.fns)
+        self.fns.update(getattr(prog, "ext", {}))
+        self.ext_used = set()
         self.blocks_run = 0
         self.stmts_run = 0
         self.forks = 0
@@ -1053,6 +1056,12 @@ class Interp:
         if kind in ("item", "unresolved", "intrinsic", "closure_once_shim", "fnptr_shim", "reify_shim", "clone_shim", "virtual"):
             m = models.lookup(name, c)
             if m is None:
+                ek = c.get("ext_body")
+                if ek and ek in self.fns and not os.environ.get("VERIF_NO_EXT"):
+                    # no hand-written model: interpret the library's own MIR of this instance
+                    self.ext_used.add(name)
+                    self.push_call(st, ek, args, dest, target, span)
+                    return None
                 raise Undecided("unmodelled callee %s (%s)" % (name, kind))
             r = m(self, st, args, c, dest, target, span)
             if r is None:
